@@ -64,3 +64,15 @@ package rawkv
 //@   bytes: key
 //@   loop 2 invariant aligned: len(values) == len(keys) && -1 <= rangeindex && rangeindex < len(keys) && forall j int :: 0 <= j && j <= rangeindex ==> values[j] == keyToValue[string(keys[j])]
 //@   ensures aligned: result1 == nil ==> len(result0) == len(keys) && forall j int :: 0 <= j && j < len(keys) ==> result0[j] == keyToValue[string(keys[j])]
+
+// Checksum: each partial checksum is asked of the region holding the cursor for exactly [cursor, range end) - so that no
+// pair is counted by two regions - and the next cursor is the end of that region (beyond the previous cursor), until the
+// range end or the last region.
+//@ func (c *Client) Checksum
+//@   prop C11
+//@   bytes: key
+//@   may-panic
+//@   at call(sendReq) assert request: arg_key == startKey && arg_reverse == false && arg_req != nil && len(arg_req.Req.(*kvrpcpb.RawChecksumRequest).Ranges) == 1 &&
+//@       arg_req.Req.(*kvrpcpb.RawChecksumRequest).Ranges[0].StartKey == startKey && arg_req.Req.(*kvrpcpb.RawChecksumRequest).Ranges[0].EndKey == endKey
+//@   loop 1 step walk: prev(startKey) < startKey && startKey == loc.EndKey
+//@   ensures done: err == nil ==> final(startKey) == "" || (endKey != "" && final(startKey) >= endKey)
